@@ -26,7 +26,10 @@ use super::traits::InnerReaderTrait;
 ///
 /// According to benchmarking on compression of representative data, 4MB seems
 /// to be a good choice
+#[cfg(not(feature = "mla_verif"))]
 const UNCOMPRESSED_DATA_SIZE: u32 = 4 * 1024 * 1024;
+#[cfg(feature = "mla_verif")]
+const UNCOMPRESSED_DATA_SIZE: u32 = 8;
 
 /// A bigger value means a better compression ratio, but a slower compression
 ///
@@ -822,7 +825,10 @@ impl<'a, R: 'a + Read> LayerFailSafeReader<'a, R> for CompressionLayerFailSafeRe
     }
 }
 
+#[cfg(not(feature = "mla_verif"))]
 const FAIL_SAFE_BUFFER_SIZE: usize = 4096;
+#[cfg(feature = "mla_verif")]
+const FAIL_SAFE_BUFFER_SIZE: usize = 8;
 
 impl<'a, R: 'a + Read> Read for CompressionLayerFailSafeReader<'a, R> {
     /// This `read` is expected to end by failing
